@@ -223,6 +223,7 @@ pub trait OHLCV: 'static {
 	/// ```
 	fn validate(&self) -> bool {
 		!(self.close() > self.high() || self.close() < self.low() || self.high() < self.low())
+			&& !(self.open() > self.high() || self.open() < self.low())
 			&& self.close() > 0.
 			&& self.open() > 0.
 			&& self.high() > 0.
